@@ -72,6 +72,19 @@ fn main() {
         "C15" => c15::run(tier, replay),
         "C16" => c16::run(tier, replay),
         "c17-emfile" => c17::child_emfile(),
+        "selftest-hang" => {
+            // machinery self-test: one job whose only execution never returns must end as an `execution-hung`
+            // violation (exit 1) after the watchdog deadline, not as a hang of the check
+            let mut ck = zvcore::evidence::Check::new("SELFTEST", zvcore::evidence::Tier::Quick, "model_checking");
+            let jobs = vec![
+                e3::job("selftest/ok".into(), serde_json::json!({}), 0, 4, || { zvcore::world::reset(Default::default()); e3::finish(zvcore::explore::Verdict::default()) }),
+                e3::job("selftest/hang".into(), serde_json::json!({}), 0, 4, || loop { std::thread::sleep(std::time::Duration::from_secs(3600)); }),
+            ];
+            e3::run_jobs_into(&mut ck, jobs, false);
+            let hung = ck.findings.iter().any(|f| f.class == "execution-hung");
+            println!("selftest-hang: findings {:?}, machinery {:?}", ck.findings.iter().map(|f| f.class.clone()).collect::<Vec<_>>(), ck.machinery);
+            if hung && ck.machinery.is_empty() { 0 } else { 2 }
+        }
         "c16-fd" => c16::child_fd(if args[2] == "thorough" { zvcore::evidence::Tier::Thorough } else { zvcore::evidence::Tier::Quick }),
         "C17" => c17::run(tier, replay),
         "C18" => c18::run(tier, replay),
